@@ -467,7 +467,9 @@ type hsResult struct {
 	srvEarlyData       [][]byte
 }
 
-func runOneHS(c hsCase) (fails []monFail, info string) {
+func runOneHS(c hsCase) (fails []monFail, info string, traces []string) {
+	var tracedConns []*quic.VerifCATraced
+	var cliVersions []quic.Version
 	var mu sync.Mutex
 	fail := func(key, desc string) {
 		mu.Lock()
@@ -482,7 +484,11 @@ func runOneHS(c hsCase) (fails []monFail, info string) {
 	expectVer := quic.Version1
 	body := func() {
 		var cliConns []*quic.Conn
-		restore := quic.VerifHookClientConns(func(cc *quic.Conn) { cliConns = append(cliConns, cc) })
+		var traced []*quic.VerifCATraced
+		restore := quic.VerifHookClientConnsTraced(func(t *quic.VerifCATraced) {
+			cliConns = append(cliConns, t.Conn)
+			traced = append(traced, t)
+		})
 		defer restore()
 		srvConf := &quic.Config{HandshakeIdleTimeout: hsIdle, MaxIdleTimeout: 20 * time.Second, Allow0RTT: c.Mode != ""}
 		cliConf := &quic.Config{HandshakeIdleTimeout: hsIdle, MaxIdleTimeout: 20 * time.Second}
@@ -498,6 +504,7 @@ func runOneHS(c hsCase) (fails []monFail, info string) {
 		default:
 			cliConf.Versions = []quic.Version{quic.Version1}
 		}
+		cliVersions = cliConf.Versions
 		o := simOpts{ServerConf: srvConf, ClientConf: cliConf, LongChain: c.LongChain}
 		if c.Mode == "" {
 			o.Faults = c.Faults
@@ -618,6 +625,7 @@ func runOneHS(c hsCase) (fails []monFail, info string) {
 			}
 			e.Router.mu.Unlock()
 			cliConns = nil
+			traced = nil
 			att.mu.Lock()
 			att.attempts, att.firstDCIDs, att.genuineRetrySCID, att.genuineDelivered = 0, nil, nil, false
 			att.dcidsPerAttempt, att.seenAttempt, att.srvSCIDs = map[string]map[string]bool{}, map[string]bool{}, map[string]bool{}
@@ -877,6 +885,7 @@ func runOneHS(c hsCase) (fails []monFail, info string) {
 		if cc != nil {
 			cc.CloseWithError(0, "")
 		}
+		tracedConns = traced
 		if a.conn != nil {
 			select {
 			case <-a.conn.Context().Done():
@@ -899,10 +908,10 @@ func runOneHS(c hsCase) (fails []monFail, info string) {
 	}
 	if err := inBubbleWatchdog(body, 120*time.Second); err != nil {
 		fail("simhandshake/leak-or-panic", err.Error())
-		return fails, "bubble error"
+		return fails, "bubble error", nil
 	}
 	if att == nil || !res.valid {
-		return fails, "no run"
+		return fails, "no run", nil
 	}
 	// ---- monitors on the result ----
 	att.mu.Lock()
@@ -1032,7 +1041,147 @@ func runOneHS(c hsCase) (fails []monFail, info string) {
 	}
 	defer func() { info += dump }()
 	info = fmt.Sprintf("ok=%v dial=%v accept=%v t=%v ver=%v alpn=%q attempts=%d injected=%v inertpos=%v used0rtt=%v resumed=%v", ok, res.dialErr, res.acceptErr, res.dialTime, res.cliVer, res.cliALPN, att.attempts, att.injected && !att.injSkipped, att.injectedInert, res.used0RTT, res.resumed)
-	return fails, info
+	// one model-replayable trace per client connection of this handshake (unit hstrace)
+	for i, t := range tracedConns {
+		if term, ok := hsTraceTerm(t, cliVersions); ok {
+			traces = append(traces, term)
+		}
+		// the connection re-created after a version negotiation carries that fact and the chosen version
+		if i > 0 {
+			prev := tracedConns[i-1].CloseClass()
+			want := fmt.Sprintf("recreate:%d", t.Initial.Version)
+			if prev != want || !t.Initial.VerNeg {
+				fails = append(fails, monFail{"simhandshake/redial", fmt.Sprintf("connection %d was created with version %x, versionNegotiated=%v after its predecessor ended with %q", i, t.Initial.Version, t.Initial.VerNeg, prev)})
+			}
+		} else if t.Initial.VerNeg {
+			fails = append(fails, monFail{"simhandshake/redial", "the first connection of a dial claims a version negotiation"})
+		}
+	}
+	return fails, info, traces
+}
+
+// hsTraceTerm turns the pre-authentication events a client connection logged into a ConnAccept case: every event that
+// concerns a Retry, a Version Negotiation or an Initial packet becomes an op together with the outcome the
+// implementation logged; the model must handle the same ops with the same outcomes, stop where the connection stopped,
+// and end in the same decision state. (Observer mode: what a dropped packet contained beyond its logged header is
+// reconstructed from the drop trigger; Handshake, 0-RTT and 1-RTT packets are outside the model.)
+func hsTraceTerm(t *quic.VerifCATraced, versions []quic.Version) (string, bool) {
+	evs := t.Events()
+	if evs == nil {
+		return "", false
+	}
+	init := t.Initial
+	vs := make([]string, len(versions))
+	for i, v := range versions {
+		vs[i] = u.ZU(uint64(v))
+	}
+	initTerm := u.App("CClient", u.ZU(uint64(init.Version)), u.List(vs), u.B(init.VerNeg), u.Hex(init.OrigDCID), u.Hex(init.Token))
+	key := init.OrigDCID   // connection ID the Initial keys come from
+	hs := init.OrigDCID    // handshake DCID as far as the trace tells
+	first, keysDropped := false, false
+	other := []byte{0xfe, 0xed, 0xfa, 0xce, 0x00}
+	goodTag, badTag := []byte{0xaa}, []byte{0xbb}
+	otherVer := uint64(quic.Version2)
+	if init.Version == uint32(quic.Version2) {
+		otherVer = uint64(quic.Version1)
+	}
+	dummy := caObs(init)
+	var steps []string
+	add := func(op string, okey, otag []byte, out string) {
+		steps = append(steps, u.App("St", op, u.Hex(okey), u.Hex(otag), "("+out+")", dummy))
+	}
+	closeCls := t.CloseClass()
+	for i, e := range evs {
+		last := i == len(evs)-1 || evs[i+1].Kind == "closed-remote" || evs[i+1].Kind == "closed-local"
+		switch {
+		case e.Kind == "recv" && e.PType == "retry":
+			add(u.App("COpPkt", u.App("CRetry", u.ZU(uint64(e.Version)), u.Hex(e.SCID), u.Hex(e.Token), u.Hex(nil), u.Hex(goodTag))), init.OrigDCID, goodTag, "ORetryAccepted")
+			key, hs = e.SCID, e.SCID
+		case e.Kind == "drop" && e.PType == "retry":
+			tag := goodTag // dropped by a guard: the model's guards must drop it even if the tag were right
+			if e.Trigger == "payload_decrypt_error" {
+				tag = badTag
+			}
+			add(u.App("COpPkt", u.App("CRetry", u.ZU(uint64(e.Version)), u.Hex(e.SCID), u.Hex([]byte{1}), u.Hex(nil), u.Hex(tag))), init.OrigDCID, goodTag, u.App("ODropped", "DUnexpectedPacket"))
+		case e.Kind == "vn":
+			vl := make([]string, len(e.Versions))
+			for j, v := range e.Versions {
+				vl[j] = u.ZU(uint64(v))
+			}
+			out := "ONone"
+			switch {
+			case strings.HasPrefix(closeCls, "recreate:"):
+				out = u.App("ORecreate", closeCls[len("recreate:"):])
+			case closeCls == "vn_error":
+				out = "OVNError"
+			}
+			add(u.App("COpPkt", u.App("CVN", "true", u.List(vl))), nil, nil, out)
+		case e.Kind == "drop" && e.PType == "version_negotiation":
+			switch e.Trigger {
+			case "header_parse_error":
+				add(u.App("COpPkt", u.App("CVN", "false", "[]")), nil, nil, u.App("ODropped", "DHeaderParse"))
+			case "unexpected_version":
+				add(u.App("COpPkt", u.App("CVN", "true", u.List([]string{u.ZU(uint64(init.Version))}))), nil, nil, u.App("ODropped", "DUnexpectedVersion"))
+			default: // dropped by the state guard: a list without our version, which would otherwise act
+				add(u.App("COpPkt", u.App("CVN", "true", u.List([]string{u.ZU(otherVer)}))), nil, nil, u.App("ODropped", "DUnexpectedPacket"))
+			}
+		case e.Kind == "recv" && e.PType == "initial":
+			pl, out := "PlPing", "OProcessed"
+			if last && closeCls == "remote_close" && i+1 < len(evs) && evs[i+1].Kind == "closed-remote" {
+				pl, out = "PlClose", "ORemoteClose"
+			}
+			add(u.App("COpPkt", u.App("CLong", "TInitial", u.ZU(uint64(e.Version)), u.Hex(e.SCID), u.Hex(key), u.Z(e.PN), pl)), nil, nil, out)
+			if !first {
+				first, hs = true, e.SCID
+			}
+		case e.Kind == "drop" && e.PType == "initial":
+			switch e.Trigger {
+			case "unknown_connection_id": // logged without the SCID: some SCID other than the handshake DCID
+				add(u.App("COpPkt", u.App("CLong", "TInitial", u.ZU(uint64(init.Version)), u.Hex(other), u.Hex(key), "9999", "PlPing")), nil, nil, u.App("ODropped", "DUnknownCID"))
+			case "payload_decrypt_error", "header_parse_error":
+				add(u.App("COpPkt", u.App("CLong", "TInitial", u.ZU(uint64(init.Version)), u.Hex(hs), u.Hex(other), "9998", "PlPing")), nil, nil, u.App("ODropped", "DDecryptErr"))
+			case "duplicate":
+				add(u.App("COpPkt", u.App("CLong", "TInitial", u.ZU(uint64(init.Version)), u.Hex(hs), u.Hex(key), u.Z(e.PN), "PlPing")), nil, nil, u.App("ODropped", "DDuplicate"))
+			case "key_unavailable":
+				if !keysDropped { // (the spec-driven client's crypto setup does not log the key discard)
+					add("COpDrop", nil, nil, "ONone")
+					keysDropped = true
+				}
+				add(u.App("COpPkt", u.App("CLong", "TInitial", u.ZU(uint64(init.Version)), u.Hex(hs), u.Hex(key), "9997", "PlPing")), nil, nil, u.App("ODropped", "DKeyUnavailable"))
+			}
+		case e.Kind == "drop" && e.PType == "" && e.Trigger == "unexpected_version":
+			add(u.App("COpPkt", u.App("CLong", "TInitial", u.ZU(otherVer), u.Hex(hs), u.Hex(key), "9996", "PlPing")), nil, nil, u.App("ODropped", "DUnexpectedVersion"))
+		case e.Kind == "keydiscard-initial":
+			if !keysDropped {
+				add("COpDrop", nil, nil, "ONone")
+				keysDropped = true
+			}
+		}
+	}
+	fin := quic.VerifConnAcceptState(t.Conn)
+	return u.App("CaseTrace", initTerm, u.List(steps), u.ZU(uint64(fin.Version)), u.B(fin.RcvFirst), u.B(fin.RcvRetry), u.B(fin.VerNeg),
+		u.Hex(fin.HsDCID), u.Hex(fin.OrigDCID), u.Opt(fin.HasRetrySCID, u.Hex(fin.RetrySCID))), true
+}
+
+func init() { units["hstrace"] = runHSTrace }
+
+// hstrace: the same simulated handshakes as simhandshake (quick-tier case list), printing one ConnAccept trace case
+// per client connection instead of the scenario description; the monitors' verdicts are reported as well.
+func runHSTrace(w *bufio.Writer, seed uint64, n int, args []string) {
+	for _, a := range args {
+		if a == "child" {
+			runSimHandshakeCases(w, seed, n, args)
+			return
+		}
+	}
+	exe, err := os.Executable()
+	if err != nil {
+		runSimHandshakeCases(w, seed, n, append(args, "traces"))
+		return
+	}
+	var out bytes.Buffer
+	runSimHandshakeShardUnit(&out, exe, "hstrace", seed, n, append(args, "traces"), 0, 1)
+	w.Write(out.Bytes())
 }
 
 // ---- enumeration ----
@@ -1130,9 +1279,13 @@ func runSimHandshake(w *bufio.Writer, seed uint64, n int, args []string) {
 
 // one worker: a child process per stretch between crashes
 func runSimHandshakeShard(w *bytes.Buffer, exe string, seed uint64, n int, args []string, shard, workers int) {
+	runSimHandshakeShardUnit(w, exe, "simhandshake", seed, n, args, shard, workers)
+}
+
+func runSimHandshakeShardUnit(w *bytes.Buffer, exe, unit string, seed uint64, n int, args []string, shard, workers int) {
 	from, crashes := 0, 0
 	for {
-		cargs := append([]string{"simhandshake", fmt.Sprint(seed), fmt.Sprint(n), "child", fmt.Sprintf("from=%d", from), fmt.Sprintf("shard=%d/%d", shard, workers)}, args...)
+		cargs := append([]string{unit, fmt.Sprint(seed), fmt.Sprint(n), "child", fmt.Sprintf("from=%d", from), fmt.Sprintf("shard=%d/%d", shard, workers)}, args...)
 		cmd := exec.Command(exe, cargs...)
 		var stderr bytes.Buffer
 		cmd.Stderr = &stderr
@@ -1186,7 +1339,11 @@ func runSimHandshakeCases(w *bufio.Writer, seed uint64, n int, args []string) {
 	scen := hsScenarios()
 	only, from, child := -1, 0, false
 	shard, nshards := 0, 1
+	traceMode := false
 	for _, a := range args {
+		if a == "traces" {
+			traceMode = true
+		}
 		if strings.HasPrefix(a, "shard=") {
 			fmt.Sscanf(a, "shard=%d/%d", &shard, &nshards)
 		}
@@ -1227,7 +1384,8 @@ func runSimHandshakeCases(w *bufio.Writer, seed uint64, n int, args []string) {
 		cases = append(cases, hsCase{Client: []string{"plain", "unil"}[i%2], Mode: []string{"0rtt", "0rtt-reject"}[(i/2)%2], EarlyVar: i / 4,
 			Faults: []fault{{Dir: 1, Idx: 0, Kind: fDelay, Arg: 700}, {Dir: 1, Idx: 1, Kind: fDelay, Arg: 700}}})
 	}
-	thorough := os.Getenv("VERIF_TIER") == "thorough"
+	// (hstrace always works on the sampled list: n handshakes, each replayed through the Coq model)
+	thorough := os.Getenv("VERIF_TIER") == "thorough" && !traceMode
 	if thorough {
 		for _, s := range scen {
 			// every single fault
@@ -1315,7 +1473,23 @@ func runSimHandshakeCases(w *bufio.Writer, seed uint64, n int, args []string) {
 			fmt.Fprintf(w, "BEGIN\t%d\t%s\n", i, c.String())
 			w.Flush()
 		}
-		fails, info := runOneHS(c)
+		fails, info, traces := runOneHS(c)
+		if traceMode {
+			if os.Getenv("VERIF_HS_SHOW") != "" {
+				fmt.Fprintf(w, "INFO\t%d\t%s => %s\n", i, c.String(), info)
+			}
+			for _, tr := range traces {
+				fmt.Fprintf(w, "CASE 1 %s\n", tr)
+			}
+			for _, f := range fails {
+				fmt.Fprintf(w, "MONFAIL\t%s\t%s\t%s => %s\n", f.key, f.desc, c.String(), info)
+			}
+			dist[fmt.Sprintf("traces-per-handshake=%d", len(traces))]++
+			if child {
+				w.Flush()
+			}
+			continue
+		}
 		nt := 0
 		if len(c.Faults) > 0 || c.Inj != nil {
 			nt = 1
